@@ -40,6 +40,15 @@ Theorem C20_rocksdb_prefix_cursor_correct : forall m o,
 Proof. exact prefix_correct. Qed.
 Print Assumptions C20_rocksdb_prefix_cursor_correct.
 
+(* forward reads position only with Min: it suffices that every key of the range carries Min's prefix, whatever
+   Max is (FULLSCAN of one table uses Min = type|table|':' and Max = type|table|';' , whose third bytes differ) *)
+Theorem C20_rocksdb_forward_read_correct : forall m o mn,
+  ksorted m -> o_reverse o = false -> o_min o = Some mn ->
+  (forall k, in_range o k = true -> pfx k = pfx mn) ->
+  engine_range_limit false KPrefix m o = Some (range_query m o).
+Proof. exact prefix_forward_correct. Qed.
+Print Assumptions C20_rocksdb_forward_read_correct.
+
 (* outside that precondition rocksdb does NOT answer like a sorted map (modelled, and checked against the real
    engine on multi-prefix stores): keys "aaa1","bbb1", forward range with nil bounds stops at the prefix change *)
 Theorem C20_rocksdb_cross_prefix_differs :
